@@ -824,3 +824,51 @@ PROPERTY = Property(
                      "type arguments + non-Hermitian Moore), 3 shapes x 5 invalid `side` values x 2 entry points; "
                      "default_tol_witnesses: 2 pinned exactly-rank-1 2x2 inputs"),
 )
+
+
+# ====================================================================================================
+# clause: full-rank inputs with a wide dynamic range and strongly rectangular shapes (default tolerance)
+
+
+@st.composite
+def wide_range_cases(draw, tier):
+    k = draw(st.integers(1, 4))
+    aspect = draw(st.sampled_from([1, 2, 4, 5, 8]))
+    big = min(k * aspect + draw(st.integers(0, 2)), 16 if tier == "quick" else 24)
+    big = max(big, k)
+    tall = draw(st.booleans())
+    m, n = (big, k) if tall else (k, big)
+    c = draw(st.sampled_from([1e3, 1e6, 1e8, 1e10]))
+    sv = np.array([c ** (-(i / max(1, k - 1))) for i in range(k)]) if k > 1 else np.array([1.0])
+    if k > 2 and draw(st.booleans()):
+        sv[1:k - 1] = np.sort(np.array(draw(st.lists(st.sampled_from([1.0, 0.5, 0.25, 1e-2]), min_size=k - 2, max_size=k - 2))))[::-1]
+    sv = sv * 10.0 ** draw(st.sampled_from([0, 0, -6, 6]))
+    A = draw(gen.matrix_with_svals(m, n, sv))
+    return {"A": A, "s": sv, "cond": c}
+
+
+def check_wide_range(case):
+    out = Out()
+    A, sv = case["A"], np.asarray(case["s"], dtype=float)
+    m, n, _ = A.shape
+    k = min(m, n)
+    out.label(f"cond={case['cond']:g}", "aspect>=4" if max(m, n) >= 4 * k else "aspect<4", "tall" if m > n else "wide")
+    # every constructed singular value is >= 1e-10*sigma_1, far above the documented threshold eps*max(m,n)*sigma_1
+    thr = np.finfo(float).eps * max(m, n) * float(sv[0])
+    if not np.all(sv > 1e3 * thr):
+        out.label("ambiguous(skipped)")
+        return out
+    rk = lib_rank(out, "rank(A)", Q(A), tags=("default_tol", "full_rank", "wide_dynamic_range"))
+    if rk is not None:
+        out.true("rank(A):counts every singular value above the documented threshold", rk == k,
+                 f"rank={rk}, but all {k} singular values {sv} exceed eps*max(m,n)*sigma_1={thr:.2e}", value=rk)
+    rkh = lib_rank(out, "rank(A^H)", Q(ref.conjT(A)), tags=("default_tol", "full_rank", "wide_dynamic_range"))
+    if rkh is not None:
+        out.true("rank(A^H):equals rank(A)", rkh == k, f"rank(A^H)={rkh}, expected {k}", value=rkh)
+    out.nontrivial = k >= 2 and case["cond"] >= 1e6
+    out.sample = {"shape": [m, n], "cond": case["cond"]}
+    return out
+
+
+PROPERTY.clauses.append(Clause("rank_wide_dynamic_range", check_wide_range, strategy=wide_range_cases,
+                               budget={"quick": 500, "thorough": 6000}))
